@@ -12,7 +12,7 @@ def solve_bundle(inner_ftf, n_ring, p2d, wf, cf):
     """Pin diameter D such that sqrt3 (n-1) P + D + 2 Dw + c = inner_ftf with
     P = p2d D, Dw = wf (P - D), c = cf D.  Returns dict of dimensions."""
     denom = SQ3 * (n_ring - 1) * p2d + 1.0 + 2.0 * wf * (p2d - 1.0) + cf
-    D = inner_ftf / denom
+    D = (inner_ftf - 4.0e-8) / denom   # margin for the 9-digit rounding of the written values
     P = p2d * D
     Dw = wf * (P - D)
     return {"D": D, "P": P, "Dw": Dw, "clearance": cf * D}
